@@ -980,7 +980,7 @@ func init() {
 			return "other"
 		},
 		Rule:        "case k, k mod 5: (0,1) fidelity: a root struct, a nested group, a command with aliases, options and positional arguments, whose tags are rendered from a key/value model with randomly chosen legal Go escapes (\\\" \\\\ \\n \\t \\xHH octal \\uHHHH \\UHHHHHHHH, raw non-ASCII), repeated keys, truthy/falsy marks, non-ASCII names; every exported attribute of every Option/Group/Command/Arg reachable through the public accessors is compared with the model (last value of single-valued keys, all values in order of default/choice/optional-value/alias), cross-checked with reflect.StructTag.Lookup; every 50th case adds an untagged self-referential pointer field; (2,3) a well-formed tag with one byte deleted / one fragment inserted / truncated at a random offset: a strict tag grammar decides whether the mutant is malformed (=> ErrTag, never a panic) or still well-formed (=> read faithfully); (4) over-long short names (ASCII, multi-byte), defaults on bool/[]bool/*bool/func(), duplicate short/long names incl. one created by a namespace and one in a nested group, through NewParser, AddGroup and AddCommand, plus the legal sharing of names between a command and its parent. distinct = (mode, kind, mutation op/offset class, #options).",
-		Assumptions: []string{"group- and command-level hidden / subcommands-optional are 'non-empty => true' (falsy spellings are not generated for them)", "keys containing control characters or empty keys are unspecified", "collisions between separate AddGroup calls are outside 'one declaration'"},
+		Assumptions: []string{"group- and command-level hidden and subcommands-optional are 'non-empty => true' (for hidden, falsy spellings are not generated)", "keys containing control characters or empty keys are unspecified", "collisions between separate AddGroup calls are outside 'one declaration'"},
 		Technique:   "runtime reference-model monitor: public model compared with a tag model rendered by the generator (and with reflect.StructTag.Lookup); tag mutation at every byte offset judged by a strict grammar; multi-step histories on one parser with direct oracles",
 		LevelText:   "Exploration with mutation at random byte offsets (all offsets are covered across cases) and an exact attribute-by-attribute comparison of the public model.",
 		LevelNote:   "Trusted: the strict tag grammar (cross-checked against reflect.StructTag.Lookup on every well-formed tag; a disagreement stops the check as broken).",
